@@ -2,14 +2,15 @@
 """Print the sub-agent prompt for one property (property text only; nothing else from /verif)."""
 import json, sys
 pid = sys.argv[1]
+rnd = sys.argv[2] if len(sys.argv) > 2 else ''
 for l in open('/verif/properties.jsonl'):
     p = json.loads(l)
     if p['id'] == pid:
         break
 else:
     sys.exit('no such property')
-wt = f'/tmp/seed-{pid}'
-out = f'/tmp/seed-out/{pid}'
+wt = f'/tmp/seed{rnd}-{pid}'
+out = f'/tmp/seed{rnd}-out/{pid}'
 print(f"""You are helping test a verification harness for the Go library gkampitakis/go-snaps (a Jest-like snapshot testing library for Go). Your job: write realistic, subtle *bugs* (source changes) that break ONE stated behavioural property of the library while the library still compiles and its existing test suite still passes. This is mutation seeding for evaluating bug-finding tools; nothing you write is ever merged.
 
 You have your own scratch git worktree of the repository at {wt} (a detached checkout of the pinned commit). Work ONLY inside {wt} and {out}. Do NOT read or touch /verif or /repo (they are off limits, so that what you write is independent).
